@@ -40,7 +40,7 @@ use crate::rule_catalog::RuleCatalog;
 use crate::schema::{RelationSchema, SchemaCatalog, ValidationEngine};
 use crate::statement::{RuleDef, SerializableBodyPred};
 use crate::storage::persist::{
-    consolidate_to_current, to_tuples, FilePersist, PersistBackend, PersistConfig, Update,
+    FilePersist, PersistBackend, PersistConfig, Update,
 };
 use crate::storage::{
     KnowledgeGraphMetadata, KnowledgeGraphsMetadata, StorageError, StorageResult,
@@ -1739,12 +1739,26 @@ impl StorageEngine {
                 // Get shard info to determine since frontier
                 let info = self.persist.shard_info(&shard_name)?;
 
-                // Read and consolidate updates
+                // Read the shard's history and replay it in time order with the set
+                // semantics the running engine applies: re-inserting a present tuple
+                // and deleting an absent one are no-ops there, while every request is
+                // logged as +1/-1. Summing diffs instead would resurrect
+                // `insert t; insert t; delete t` and lose `delete t; insert t`.
                 let mut updates = self.persist.read(&shard_name, info.since)?;
-                consolidate_to_current(&mut updates);
-
-                // Extract current tuples (positive multiplicities only)
-                let tuples = to_tuples(&updates);
+                updates.sort_by_key(|u| u.time);
+                let mut present: std::collections::HashMap<Tuple, bool> =
+                    std::collections::HashMap::new();
+                let mut order: Vec<Tuple> = Vec::new();
+                for update in updates {
+                    if !present.contains_key(&update.data) {
+                        order.push(update.data.clone());
+                    }
+                    present.insert(update.data, update.diff > 0);
+                }
+                let tuples: Vec<Tuple> = order
+                    .into_iter()
+                    .filter(|t| present.get(t).copied().unwrap_or(false))
+                    .collect();
 
                 if !tuples.is_empty() {
                     // Infer schema from first tuple
